@@ -10,48 +10,53 @@
 (***************************************************************************)
 EXTENDS Limb14, BtpeTable, H2peTable, PdTable, MtTable, ChengTable, Rej64Table, Integers, Sequences, TLC, Json, IOUtils
 
+TH == "TIER" \in DOMAIN IOEnv /\ IOEnv.TIER = "thorough"
+BTabX == IF TH THEN BTabT ELSE BTab
+HTabX == IF TH THEN HTabT ELSE HTab
+PTabX == IF TH THEN PTabT ELSE PTab
+MTabX == IF TH THEN MTabT ELSE MTab
 Rec == ndJsonDeserialize(IOEnv.TRACE)
 VARIABLE l
 Ev == Rec[l]
 Near14(a, b, e) == Cmp(AbsDiff(a, b), Pow2(e)) <= 0
 
 Rule == /\ Ev.res = "Ok"
-        /\ CASE Ev.op = "btpe2" -> LET a == BTab[Ev.case].r2[Ev.k] IN
+        /\ CASE Ev.op = "btpe2" -> LET a == BTabX[Ev.case].r2[Ev.k] IN
                                    /\ Ev.accepted_at_zero /\ Ev.y = a.y
                                    /\ Near14(Ev.T, a.frac, 64 - 28)
              \* regions 3 / 4 (exponential tails): after the anchor's first word the second words returning y form the interval
              \* [exp(lambda (y - x_l)), min(exp(lambda (y + 1 - x_l)), f(y)/f(m) / ((u - p2) lambda))) (mirrored on the right): both ends to 2^-28
-             [] Ev.op = "btpet" -> LET a == BTab[Ev.case].rt[Ev.k] IN
+             [] Ev.op = "btpet" -> LET a == BTabX[Ev.case].rt[Ev.k] IN
                                    /\ Ev.probe_ok
                                    /\ Near14(Ev.lo, a.lo, 64 - 28) /\ Near14(Ev.hi, a.hi, 64 - 28)
-             [] Ev.op = "btpe1" -> LET a == BTab[Ev.case].r1[Ev.k] IN
+             [] Ev.op = "btpe1" -> LET a == BTabX[Ev.case].r1[Ev.k] IN
                                    /\ Ev.always_two_words /\ Len(Ev.cnts) = Len(a.js)
                                    /\ \A i \in 1..Len(a.js) : Near14(Ev.cnts[i], a.js[i].cnt, 64 - 44)
              \* H2PE (Hypergeometric), region 1: the value returned for the anchor's first word is the table's, and the accepting second
              \* words are a prefix of relative length f(y)/f(m), f the hypergeometric pmf (2^-22: the code's final test uses Stirling's ln v!)
              \* H2PE tails (regions 2 / 3): the second words returning the table's value after the anchor's first word form the documented interval (2^-22)
-             [] Ev.op = "h2pet" -> LET a == HTab[Ev.case].rt[Ev.k] IN
+             [] Ev.op = "h2pet" -> LET a == HTabX[Ev.case].rt[Ev.k] IN
                                    /\ Ev.probe_ok
                                    /\ Near14(Ev.lo, a.lo, 64 - 22) /\ Near14(Ev.hi, a.hi, 64 - 22)
-             [] Ev.op = "h2pe1" -> LET a == HTab[Ev.case].r1[Ev.k] IN
+             [] Ev.op = "h2pe1" -> LET a == HTabX[Ev.case].r1[Ev.k] IN
                                    /\ Ev.accepted_at_zero /\ Ev.out = a.out
                                    /\ Near14(Ev.T, a.frac, 64 - 22)
              \* Poisson PD (lambda >= 12), steps S / Q: after a normal deviate with floor k < l the uniform words that return k are a
              \* suffix of relative length 1 - min((lambda - k)^3 / d, 1 - pmf(k)/hat(k)), pmf the Poisson pmf itself (2^-24 f64, 2^-15 f32)
-             [] Ev.op = "pd" -> LET a == PTab[Ev.case].ks[Ev.j] IN
+             [] Ev.op = "pd" -> LET a == PTabX[Ev.case].ks[Ev.j] IN
                                 /\ Ev.found /\ Ev.k = a.k
                                 /\ Near14(Ev.T, a.frac, IF Ev.ft = "f64" THEN 64 - 24 ELSE 64 - 15)
              \* steps E / H: the uniform words accepted after an exponential deviate e form an interval around the middle word with
              \* half-lengths (pmf(k2) - hat(k2)) exp(e) / (2 c) on either side (k2 = floor(lambda + s (1.8 +- e))), clipped to [0, 1/2]
              \* (tolerance 2^-19 / 2^-12: the paper's approximations of the pmf for k >= 10 are good to about 1e-8, and the half-length
              \* amplifies an error of pmf - hat by exp(e) / (2 c) = 4.7 lambda exp(e))
-             [] Ev.op = "pdh" -> LET a == PTab[Ev.case].hs[Ev.h]  tol == IF Ev.ft = "f64" THEN 64 - 19 ELSE 64 - 12 IN
+             [] Ev.op = "pdh" -> LET a == PTabX[Ev.case].hs[Ev.h]  tol == IF Ev.ft = "f64" THEN 64 - 19 ELSE 64 - 12 IN
                                  /\ Ev.e_ok
                                  /\ (a.kp >= 0) => (Near14(Ev.ap, a.ap, tol) /\ (Cmp(a.ap, Pow2(tol)) > 0 => Ev.kp = a.kp))
                                  /\ (a.km >= 0) => (Near14(Ev.am, a.am, tol) /\ (Cmp(a.am, Pow2(tol)) > 0 => Ev.km = a.km))
              \* Marsaglia-Tsang (Gamma, shape >= 1): for the normal deviate x the value returned is d (1 + c x)^3 and the accepting uniform words
              \* are a prefix of relative length min(1, exp(x^2/2 + d (1 - v + ln v))) (2^-32 f64 / 2^-14 f32; value: 2^-38 / 2^-16 relative)
-             [] Ev.op = "mt" -> LET a == MTab[Ev.case].xs[Ev.j] IN
+             [] Ev.op = "mt" -> LET a == MTabX[Ev.case].xs[Ev.j] IN
                                 /\ Ev.x_ok /\ Ev.accepted_at_zero
                                 /\ Near14(Ev.T, a.frac, IF Ev.ft = "f64" THEN 64 - 32 ELSE 64 - 14)
                                 /\ Cmp(Mul(AbsDiff(Ev.outq, a.outq), Pow2(IF Ev.ft = "f64" THEN 38 ELSE 16)), a.outq) <= 0
